@@ -35,11 +35,12 @@ impl Opts {
             "dbg" => 8,
             "asan" => 6,
             "tsan" => 10,
-            "miri" => 4000,
+            "miri" => 20000,
             "valgrind" => 60,
             _ => 1,
         };
-        (base / div).max(1)
+        let floor = if self.variant == "miri" { 6 } else { 1 };
+        (base / div).max(floor)
     }
     pub fn wants(&self, family: &str) -> bool {
         match &self.only {
